@@ -35,7 +35,7 @@ impl Engine for BpEngine {
                     .mem_channel_bound(bound)
                     .buffered_writes_high_water(high)
                     .buffered_writes_low_water(low);
-                let mut conn = match Connection::insecure_open_stream(stream, ConnectionOptions::<Auth>::default().heartbeat(0), tuning) {
+                let conn = match Connection::insecure_open_stream(stream, ConnectionOptions::<Auth>::default().heartbeat(0), tuning) {
                     Ok(c) => c,
                     Err(e) => {
                         stop.store(true, Ordering::SeqCst);
@@ -43,13 +43,34 @@ impl Engine for BpEngine {
                         return out.push(format!("open err {}", err_token(&e)));
                     }
                 };
-                let mut chans = Vec::new();
-                for i in 0..threads {
-                    match conn.open_channel(Some((i + 1) as u16)) {
-                        Ok(c) => chans.push(c),
-                        Err(e) => return out.push(format!("open-channel err {}", err_token(&e))),
+                // opening the channels happens on a helper thread so that a call that never returns
+                // is an observation ("open-channel hung") rather than a stuck check
+                let opener = std::thread::spawn(move || {
+                    let mut conn = conn;
+                    let mut chans = Vec::new();
+                    for i in 0..threads {
+                        match conn.open_channel(Some((i + 1) as u16)) {
+                            Ok(c) => chans.push(c),
+                            Err(e) => return Err(format!("open-channel err {}", err_token(&e))),
+                        }
                     }
+                    Ok((conn, chans))
+                });
+                let t_open = Instant::now();
+                while !opener.is_finished() && t_open.elapsed() < Duration::from_secs(10) {
+                    std::thread::sleep(Duration::from_millis(5));
                 }
+                if !opener.is_finished() {
+                    stop.store(true, Ordering::SeqCst);
+                    return out.push("open-channel hung".into());
+                }
+                let (conn, chans) = match opener.join().unwrap() {
+                    Ok(x) => x,
+                    Err(e) => {
+                        stop.store(true, Ordering::SeqCst);
+                        return out.push(e);
+                    }
+                };
                 // everything so far is on the wire; now the transport stalls
                 std::thread::sleep(Duration::from_millis(30));
                 peer.set_budget(Some(0));
